@@ -144,7 +144,7 @@ def run(pid, tier):
         import chk_modfile
         base = {"maxlen": 4 if tier == "quick" else 5, "maxentries": 2 if tier == "quick" else 3}
         mrecs = []
-        for mode, inv in (("Paths", "PathsOK"), ("Manifest", "OneErrorPerOffender"), ("Odd", "OddOK"), ("OddSchema", "OddSchemaOK")):
+        for mode, inv in (("Paths", "PathsOK"), ("Manifest", "OneErrorPerOffender"), ("Odd", "OddOK"), ("OddSchema", "OddSchemaOK"), ("Styled", "StyledOK")):
             mrecs += run_tlc("ModFile", chk_modfile.CFG % dict(base, mode=mode, inv=inv), sc, cache=True, timeout=3000).records
         mi, mo = sc.path("c08e.in.ndjson"), sc.path("c08e.out.ndjson")
         write_ndjson(mi, mrecs)
